@@ -142,11 +142,11 @@ CLAIMS['C10'] = dict(
          'for those two stretch lists the tokens pushed by the sweep are exactly rows(os, ads): for every adjustment stretch in order and every original stretch in order, one token per NON-EMPTY overlap '
          '(max of the starts < min of the ends), placed at the start of the overlap plus the adjustment token\'s generated-minus-original displacement, with the original token\'s source id, original position, name id '
          'and range flag; the result is that list sorted by generated position (a permutation: multiset equality); file, names, sources, root, prefixed-name cache, contents, ignore list and debug id are unchanged; '
-         'no arithmetic overflows and all three loops terminate. CONDITIONAL: the exactly-one-token clause is proved for inputs whose stretches are all non-empty (no two original tokens at one generated position, no two adjustment tokens at one original position); '
+         'no arithmetic overflows and all three loops terminate. The exactly-one-token clause is proved for inputs whose stretches are all non-empty, and -- by lemma_distinct_positions_give_nonempty_stretches, a permutation argument over the multisets -- for every pair of maps in which no two original tokens share a generated position and no two adjustment tokens share an original position; '
          'with an empty stretch the code emits extra tokens -- known finding D10, reported by the bounded stand-in adjust_dups.',
     note=_TB + 'Requires generated positions of the map and both positions of the adjustment map below 2^30 (the `as i32` casts and their sums then stay in range; beyond 2^31 the casts wrap). Assumed: mem::take, Vec<RawToken>::clone, slice::Iter::next, '
          'cmp::max / cmp::min on pairs, Peekable, sort_unstable_by_key (sorted permutation); `for &x in &v` is verified in its desugared form (R-for-slice). The fn-pointer parameter of create_ranges is verified as a generic Fn (R-fnptr). '
-         'That distinct positions imply non-empty stretches is not proved (it needs a permutation argument); the hypothesis is stated on the stretches. The bounded stand-ins adjust / adjust_dups still run through the public API.',
+         'The bounded stand-ins adjust / adjust_dups still run through the public API.',
     design_ref='DESIGN.md 5 C10')
 
 _BOUNDED_ONLY = ('BOUNDED STAND-IN ONLY, no proof: %s No obligation is discharged for this property; its contract is checked by exhaustive enumeration over a stated '
@@ -177,8 +177,8 @@ CLAIMS['C17'] = dict(
          'line and the column (uniqueness lemmas), so "first" is well defined; the loop terminates and nothing can panic.',
     note=_TB + 'Assumed: take(128).peekable() as a buffer of one item in front of at most 128 calls of the walker\'s next (prelude/shim_takepeek.rs; each inner call is assumed to satisfy the contract PROVED for RevTokenIter::next), '
          'the Unicode tables of the unicode-id-start crate (two uninterpreted predicates), char::is_whitespace (uninterpreted), str::char_indices, chars / chars().rev(), split_whitespace().next(), &s[..n] / get(..n) / get(n..) at '
-         'character offsets, char::len_utf16, Option comparisons with Some(&str), the sequential cell model of Mutex / AtomicUsize. The one-line wrappers SourceMap / SourceMapIndex / DecodedMap::get_original_function_name '
-         '(lookup_token, proved in C04 / C08, then and_then with a closure that captures the view) are not under contract. Token columns inside a surrogate pair are outside the precondition. The bounded stand-in function_name still runs through the public API.',
+         'character offsets, char::len_utf16, Option comparisons with Some(&str), the sequential cell model of Mutex / AtomicUsize. SourceMap::get_original_function_name (the position-based entry point) is under contract too: the walk starts at the token C04 says the position resolves to, whose index is proved to be the index of its raw token (D16 fixed; `and_then` read as its definition, R-and-then). '
+         'The SourceMapIndex / DecodedMap variants of the wrapper are not under contract. Token columns inside a surrogate pair are outside the precondition. The bounded stand-in function_name still runs through the public API.',
     design_ref='DESIGN.md 5 C17')
 CLAIMS['C18'] = dict(
     text='PARTIAL: unbounded proof of the discovery and detection mechanisms (src/detector.rs): locate_sourcemap_reference returns, for the sequence of lines its reader yields, the reference '
@@ -225,11 +225,11 @@ NOT_APPLICABLE['C16'] = ('concurrency (interleavings of threads sharing a Source
 # parts of each property that no discharged obligation covers (reported in every evidence file, never counted)
 NOT_COVERED = {
     'C15': ['the sequential reading of Mutex / AtomicUsize is an assumption (R-seq); threads are C16', 'SourceView::from_string / clone (other constructors), Lines as an Iterator impl (verified as the inherent method, R-trait-inherent)', 'the unsafe lifetime extension of cached lines'],
-    'C17': ['SourceMap / SourceMapIndex / DecodedMap::get_original_function_name wrappers (lookup_token + and_then with a capturing closure): bounded stand-in function_name', 'token columns that fall inside a surrogate pair (outside the precondition `aligned`): bounded only', 'std\'s Take / Peekable adapters (assumed contract over the walker\'s proved contract)'],
+    'C17': ['SourceMapIndex / DecodedMap::get_original_function_name wrappers (index lookup, proved in C08, then the same walk): not under contract; the bounded stand-in function_name covers SourceView:: and SourceMap::get_original_function_name', 'token columns that fall inside a surrogate pair (outside the precondition `aligned`): bounded only', 'std\'s Take / Peekable adapters (assumed contract over the walker\'s proved contract)'],
     'C18': ['how BufReader::lines cuts bytes into lines (std; assumed -- exercised by the bounded stand-in discover incl. texts larger than any buffer)', 'to_data_url / decode_data_url round trip (base64 of two crates): bounded', 'is_sourcemap / is_sourcemap_slice wiring around serde_json: bounded (header, discover)'],
     'C19': ['the std adapter chains inside make_relative_path are behind assumed contracts (split/filter/collect, sort_by_key, repeat/take/collect, join); the bounded stand-in relpath exercises the real ones', 'find_common_prefix (the rewrite "~" option): not part of C19'],
     'C20': ['scroll::Pread internals and the derive(Pread) expansion (assumed contracts; exercised by the bounded stand-in ram_bundle)', 'UnbundleRamBundle (file-system based variant)', 'split_ram_bundle / SplitRamBundleModuleIter (composition with flatten and SourceMapBuilder)', 'that Iterator::next of RamBundleModuleIter is the inherent body verified here (R-trait-inherent: same text, emitted outside the trait impl)'],
-    'C10': ['inputs with an empty stretch (two tokens at one position, column u32::MAX): the exactly-one-token clause is conditional on non-empty stretches (known finding D10 lives there); bounded stand-in adjust_dups', 'positions >= 2^30 (`as i32` arithmetic): outside the precondition', 'that distinct positions imply non-empty stretches (stated as a hypothesis on the stretches)'],
+    'C10': ['inputs with an empty stretch (two tokens at one position, column u32::MAX): the exactly-one-token clause is conditional on non-empty stretches (known finding D10 lives there); bounded stand-in adjust_dups', 'positions >= 2^30 (`as i32` arithmetic): outside the precondition'],
     'C09': ['strip_prefixes, find_common_prefix ("~") (bounded stand-in rewrite only)', 'load_local_source_contents (filesystem; excluded by the property)', 'SourceMapHermes::rewrite function-map permutation (bounded stand-in only)'],
     'C05': ['dependencies (serde_json, url, bitvec, data-encoding, base64-simd, debugid)', 'sourceview.rs, js_identifiers.rs, detector.rs line scan, Display/Debug impls, ram_bundle.rs',
             'flatten (+ off_col / + off_line overflow, design-phase defect D6), rewrite, adjust_mappings, range bitfield writer (D4), decode_hermes', 'allocation in proportion to the input; wall-clock (only termination is proved)'],
